@@ -113,6 +113,14 @@ func c20Check(c c20Case, st *stats.Run) error {
 		wg.Add(1)
 		go func(gi int, ops []c20Op) {
 			defer wg.Done()
+			defer func() {
+				if r := recover(); r != nil {
+					select {
+					case errs <- pbt.Failf("C20/panic-under-concurrency", "goroutine %d panicked while sharing %v values: %v", gi, c.Kinds, r):
+					default:
+					}
+				}
+			}()
 			<-start
 			for oi, o := range ops {
 				for y := 0; y < o.Yield; y++ {
